@@ -133,6 +133,7 @@ def main(argv=None):
 
     by_name = {r["obligation"]: r for r in results}
     bounded_reports = []
+    fallback_notes = []
     violations = []
     known_lines = []
     n_ob = n_ok = 0
@@ -146,6 +147,9 @@ def main(argv=None):
         if r["kind"] == "agreement":
             if r["status"] != "proved":
                 broken.append("engine and CPython disagree: %s: %s" % (name, r.get("detail")))
+            continue
+        if r["kind"] == "fallback":
+            fallback_notes.append("%s: %s" % (name.rsplit("/", 1)[0], r.get("detail")))
             continue
         if r["kind"] == "bounded":
             # bounded structural cross-check / fall-back: reported, never counted as discharged
@@ -245,6 +249,8 @@ def main(argv=None):
         print(l)
     for br in bounded_reports:
         print("BOUNDED-CHECK %s %s" % (br["status"], br["name"]))
+    for fn_ in fallback_notes:
+        print("BOUNDED-FALLBACK " + fn_)
     for u in undecided:
         print("UNDECIDED " + u)
     for b in broken:
@@ -254,7 +260,7 @@ def main(argv=None):
 
     if not a.no_evidence and not a.only:
         write_evidence(a.prop, tier, seed, results, functions, lib_used, trusted, samples, n_ob, n_ok, known_lines,
-                       violations, undecided, broken, standin_reports, wall, outs)
+                       violations, undecided, broken, standin_reports + [{"name": "fallback", "status": "ok", "label": "bounded stand-in used instead of a proof", "detail": x} for x in fallback_notes], wall, outs)
     if violations:
         return 1  # a counter-model is positive evidence; checker errors (printed above) do not retract it
     if broken:
